@@ -188,15 +188,63 @@ func ruleProtocol(c *Ctx, rule string) {
 				elemCall = call
 			}
 		}
-		ok := parentCall != nil && elemCall != nil
-		why := "missing the parent-context call or the per-constraint call"
-		if ok {
-			// parent before elements
-			ri := reachWithoutFrom(fn, elemCall, func(ssa.Instruction) bool { return false })
-			if ri.entryReach[parentCall.Block()] {
-				ok, why = false, "constraints run before the parent context"
+		icT := p.Named("boltz", "IndexingContext")
+		isCtxPtr := func(t types.Type) bool {
+			pt, isP := t.(*types.Pointer)
+			return isP && namedOf(pt.Elem()) == icT
+		}
+		// ownerOf: the indexing context whose constraints the element call ranges over
+		var ownerOf func(v ssa.Value, depth int) ssa.Value
+		ownerOf = func(v ssa.Value, depth int) ssa.Value {
+			if v == nil || depth > 12 {
+				return nil
 			}
-			l := innermostLoop(loopsOf(fn), elemCall.Block())
+			if isCtxPtr(v.Type()) {
+				if _, isFA := v.(*ssa.FieldAddr); !isFA {
+					return v
+				}
+			}
+			switch x := v.(type) {
+			case *ssa.UnOp:
+				return ownerOf(x.X, depth+1)
+			case *ssa.FieldAddr:
+				return ownerOf(x.X, depth+1)
+			case *ssa.IndexAddr:
+				return ownerOf(x.X, depth+1)
+			case *ssa.Extract:
+				return ownerOf(x.Tuple, depth+1)
+			case *ssa.Next:
+				return ownerOf(x.Iter, depth+1)
+			case *ssa.Range:
+				return ownerOf(x.X, depth+1)
+			case *ssa.Slice:
+				return ownerOf(x.X, depth+1)
+			case *ssa.Phi:
+				for _, e := range x.Edges {
+					if o := ownerOf(e, depth+1); o != nil {
+						return o
+					}
+				}
+			case *ssa.Call:
+				if x.Call.IsInvoke() {
+					return ownerOf(x.Call.Value, depth+1)
+				}
+				for _, a := range x.Call.Args {
+					if o := ownerOf(a, depth+1); o != nil {
+						return o
+					}
+				}
+			}
+			return nil
+		}
+		ok := elemCall != nil
+		why := "missing the per-constraint call"
+		okText := "parent context first, then every constraint of this store in a full loop"
+		var owner ssa.Value
+		if ok {
+			owner = ownerOf(elemCall.Common().Value, 0)
+			loops := loopsOf(fn)
+			l := innermostLoop(loops, elemCall.Block())
 			if l == nil {
 				ok, why = false, "constraints are not processed in a loop"
 			} else {
@@ -208,12 +256,110 @@ func ruleProtocol(c *Ctx, rule string) {
 					}
 				}
 			}
-			// the element call passes the same context
-			if len(elemCall.Common().Args) != 1 || elemCall.Common().Args[0] != ssa.Value(fn.Params[0]) {
-				ok, why = false, "constraints are not given this indexing context"
+			// the element call passes the context that owns the constraints
+			if len(elemCall.Common().Args) != 1 || owner == nil || elemCall.Common().Args[0] != owner {
+				ok, why = false, "constraints are not given the indexing context they belong to"
 			}
 		}
-		c.Check(ok, rule, name, p.Pos(fn.Pos()), "parent context first, then every constraint of this store in a full loop", why)
+		switch {
+		case !ok:
+		case owner == ssa.Value(fn.Params[0]):
+			// recursive form: the parent context is handled first by a call on ctx.Parent
+			if parentCall == nil {
+				ok, why = false, "missing the parent-context call"
+			} else {
+				ri := reachWithoutFrom(fn, elemCall, func(ssa.Instruction) bool { return false })
+				if ri.entryReach[parentCall.Block()] {
+					ok, why = false, "constraints run before the parent context"
+				}
+			}
+		default:
+			// iterative form: the owner is an element of a slice of contexts that holds this context and
+			// every ancestor reached by walking .Parent
+			okText = "every context of the ancestor chain (collected by walking .Parent into a slice that is ranged over in full) runs every one of its constraints with itself as argument; the order of the chain is not decided in this form"
+			ld, isLoad := owner.(*ssa.UnOp)
+			var ia *ssa.IndexAddr
+			if isLoad {
+				ia, _ = ld.X.(*ssa.IndexAddr)
+			}
+			if ia == nil {
+				ok, why = false, "the context whose constraints are processed is neither this context nor an element of a collected ancestor chain"
+				break
+			}
+			loops := loopsOf(fn)
+			inner := innermostLoop(loops, elemCall.Block())
+			var outer *Loop
+			for _, lp := range loops {
+				if lp != inner && lp.Blocks[elemCall.Block()] && lp.Blocks[ia.Block()] && (outer == nil || len(lp.Blocks) < len(outer.Blocks)) {
+					outer = lp
+				}
+			}
+			if outer == nil {
+				ok, why = false, "the ancestor chain is not ranged over"
+				break
+			}
+			for b := range outer.Blocks {
+				for _, s := range b.Succs {
+					if !outer.Blocks[s] && b != outer.Header {
+						ok, why = false, "the loop over the ancestor chain can be left early"
+					}
+				}
+			}
+			// what is put into slices of contexts in this function
+			sawSelf, sawWalker := false, false
+			for _, b := range fn.Blocks {
+				for _, in := range b.Instrs {
+					st, isSt := in.(*ssa.Store)
+					if !isSt || !isCtxPtr(st.Val.Type()) {
+						continue
+					}
+					if _, toElem := st.Addr.(*ssa.IndexAddr); !toElem {
+						continue
+					}
+					switch v := st.Val.(type) {
+					case *ssa.Parameter:
+						if v == fn.Params[0] {
+							sawSelf = true
+						}
+					case *ssa.Phi:
+						// walker: p = φ(start, p.Parent)
+						walks := false
+						for _, e := range v.Edges {
+							if ff, base := loadedField(e); sameVar(ff, parentFld) && (base == ssa.Value(v) || base == ssa.Value(fn.Params[0])) {
+								walks = true
+							}
+							if e == ssa.Value(fn.Params[0]) {
+								sawSelf = true
+							}
+						}
+						if walks {
+							wl := innermostLoop(loops, st.Block())
+							if wl == nil {
+								ok, why = false, "ancestors are not collected in a loop"
+							} else {
+								// every iteration stores the walker
+								ri := reachWithoutFrom(fn, wl.Header.Instrs[len(wl.Header.Instrs)-1], func(x ssa.Instruction) bool { return x == ssa.Instruction(st) })
+								for _, pb := range wl.Header.Preds {
+									if wl.Blocks[pb] && ri.entryReach[pb] && !pathPassesStore(pb, st) {
+										ok, why = false, "an ancestor can be skipped while the chain is collected"
+									}
+								}
+								sawWalker = true
+							}
+						}
+					case *ssa.UnOp:
+						// swapping elements of the chain (reversal) or copying .Parent directly
+						if ff, base := loadedField(v); sameVar(ff, parentFld) && base == ssa.Value(fn.Params[0]) {
+							sawWalker = sawWalker || false
+						}
+					}
+				}
+			}
+			if ok && (!sawSelf || !sawWalker) {
+				ok, why = false, "the collected chain does not provably hold this context and every ancestor reached through .Parent"
+			}
+		}
+		c.Check(ok, rule, name, p.Pos(fn.Pos()), okText, why)
 	}
 	c.Floor(rule, 8)
 }
@@ -425,7 +571,15 @@ func ruleUniq(c *Ctx, rule string) {
 		cal, _ := calleeOf(call.Common())
 		return cal != nil && cal.Name() == "Get" && len(call.Call.Args) == 2 && call.Call.Args[1] == newVal
 	}
-	guard := fi.HoldsWhere(put.Block(), func(f Fact) bool { return f.Kind == "nonnil" && !f.Pol && isGetOfNew(f.V) })
+	// every path to the put takes an edge on which a lookup of that very value found nothing
+	guard := noPathToAvoiding(fn, put, nil, func(from, to *ssa.BasicBlock) bool {
+		for f := range fi.edgeFacts(from, to) {
+			if f.Kind == "nonnil" && !f.Pol && isGetOfNew(f.V) {
+				return true
+			}
+		}
+		return false
+	})
 	c.Check(guard, rule, name+": put only when absent", p.Pos(put.Pos()), "the new value is put only on the edge where a lookup of that very value found nothing", "the unique value is written without first establishing that no entity holds it")
 	// the found edge records a UniqueIndexDuplicateError
 	dup := false
@@ -1565,4 +1719,9 @@ func ruleKeyPresence(c *Ctx, rule string) {
 		}
 	}
 	c.Check(!nilValued || (!usesGet && usesSeek && usesEq), rule, FnName(fn), p.Pos(fn.Pos()), "presence is decided by seeking the key and comparing it (entries carry nil values)", "entries are written with a nil value but presence is tested through the value (Bucket.Get): an existing entry looks absent, so CheckAndDelete/CheckAndSet act on one side only")
+}
+
+// pathPassesStore: block b lies at or after st within the same loop body (st's block dominates b).
+func pathPassesStore(b *ssa.BasicBlock, st *ssa.Store) bool {
+	return st.Block().Dominates(b)
 }
